@@ -80,68 +80,93 @@ func supervise(id, tier string, seed int64) int {
 	work := filepath.Join(rep.Root, ".work", fmt.Sprintf("%s-%d", id, os.Getpid()))
 	os.MkdirAll(work, 0755)
 	defer os.RemoveAll(work)
-	errPath := filepath.Join(outDir, "child.stderr")
-	ef, err := os.Create(errPath)
-	if err != nil {
-		fmt.Fprintln(os.Stderr, err)
-		return 3
-	}
-	start := time.Now()
-	cmd := exec.Command(os.Args[0], os.Args[1:]...)
-	raceLog := filepath.Join(outDir, "race")
-	cmd.Env = append(os.Environ(), "VERIF_CHILD=1", "VERIF_WORK="+work, "GOTRACEBACK=all",
-		"GORACE=halt_on_error=0 exitcode=0 history_size=5 log_path="+raceLog, "VERIF_RACE_LOG="+raceLog)
-	cmd.Stdout = os.Stdout
-	cmd.Stderr = ef
-	cmd.SysProcAttr = &syscall.SysProcAttr{Setpgid: true}
-	if err := cmd.Start(); err != nil {
-		fmt.Fprintln(os.Stderr, err)
-		return 3
-	}
-	// Generous outer watchdog; its firing is inconclusive, never a violation.
-	limit := 40 * time.Minute
-	if tier == "thorough" {
-		limit = 6 * time.Hour
-	}
-	done := make(chan error, 1)
-	go func() { done <- cmd.Wait() }()
-	var werr error
-	timedOut := false
-	select {
-	case werr = <-done:
-	case <-time.After(limit):
-		timedOut = true
-		syscall.Kill(-cmd.Process.Pid, syscall.SIGQUIT)
+	// runChild runs the check in a child process; code is the child's exit code.
+	runChild := func(attempt int) (code int, timedOut bool, errPath string, took time.Duration, limit time.Duration) {
+		name := "child.stderr"
+		if attempt > 0 {
+			name = fmt.Sprintf("child-%d.stderr", attempt)
+		}
+		errPath = filepath.Join(outDir, name)
+		ef, err := os.Create(errPath)
+		if err != nil {
+			fmt.Fprintln(os.Stderr, err)
+			return 3, false, errPath, 0, 0
+		}
+		start := time.Now()
+		cmd := exec.Command(os.Args[0], os.Args[1:]...)
+		raceLog := filepath.Join(outDir, "race")
+		cmd.Env = append(os.Environ(), "VERIF_CHILD=1", "VERIF_WORK="+work, "GOTRACEBACK=all",
+			"GORACE=halt_on_error=0 exitcode=0 history_size=5 log_path="+raceLog, "VERIF_RACE_LOG="+raceLog)
+		cmd.Stdout = os.Stdout
+		cmd.Stderr = ef
+		cmd.SysProcAttr = &syscall.SysProcAttr{Setpgid: true}
+		if err := cmd.Start(); err != nil {
+			fmt.Fprintln(os.Stderr, err)
+			ef.Close()
+			return 3, false, errPath, 0, 0
+		}
+		// Generous outer watchdog; its firing is inconclusive, never a violation.
+		limit = 40 * time.Minute
+		if tier == "thorough" {
+			limit = 6 * time.Hour
+		}
+		done := make(chan error, 1)
+		go func() { done <- cmd.Wait() }()
+		var werr error
 		select {
 		case werr = <-done:
-		case <-time.After(20 * time.Second):
-			syscall.Kill(-cmd.Process.Pid, syscall.SIGKILL)
-			werr = <-done
+		case <-time.After(limit):
+			timedOut = true
+			syscall.Kill(-cmd.Process.Pid, syscall.SIGQUIT)
+			select {
+			case werr = <-done:
+			case <-time.After(20 * time.Second):
+				syscall.Kill(-cmd.Process.Pid, syscall.SIGKILL)
+				werr = <-done
+			}
 		}
+		ef.Close()
+		if werr != nil {
+			if ee, ok := werr.(*exec.ExitError); ok {
+				code = ee.ExitCode()
+			} else {
+				code = 3
+			}
+		}
+		return code, timedOut, errPath, time.Since(start), limit
 	}
-	ef.Close()
-	if timedOut {
-		fmt.Printf("INCONCLUSIVE property=%s reason=outer watchdog (%s) fired; goroutine dump in %s\n", id, limit, errPath)
+	var code int
+	var errPath, tail string
+	var took time.Duration
+	for attempt := 0; ; attempt++ {
+		var timedOut bool
+		var limit time.Duration
+		code, timedOut, errPath, took, limit = runChild(attempt)
+		if timedOut {
+			fmt.Printf("INCONCLUSIVE property=%s reason=outer watchdog (%s) fired; goroutine dump in %s\n", id, limit, errPath)
+			return 2
+		}
+		if code >= 100 && code <= 102 {
+			// child decided and wrote evidence itself
+			if st, _ := os.Stat(errPath); st != nil && st.Size() == 0 {
+				os.Remove(errPath)
+			}
+			return code - 100
+		}
+		tail = tailOf(errPath, 200)
+		if fatalKind(tail) != "other" || strings.Contains(tail, "fatal error") || strings.Contains(tail, "goroutine ") {
+			break // the Go runtime reported what killed the process: a fault in the code under test
+		}
+		// The process is gone and the runtime said nothing (killed from outside, could not
+		// start, …): nothing was observed about the property. Once more; then inconclusive.
+		if attempt == 0 {
+			fmt.Printf("NOTE property=%s child exited with code %d after %s without a runtime report; running it once more\n", id, code, took.Round(time.Millisecond))
+			continue
+		}
+		fmt.Printf("INCONCLUSIVE property=%s reason=child exited twice with code %d and no runtime report (see %s)\n", id, code, errPath)
 		return 2
 	}
-	code := 0
-	if werr != nil {
-		if ee, ok := werr.(*exec.ExitError); ok {
-			code = ee.ExitCode()
-		} else {
-			code = 3
-		}
-	}
-	if code >= 100 && code <= 102 {
-		code -= 100
-		// child decided and wrote evidence itself
-		if st, _ := os.Stat(errPath); st != nil && st.Size() == 0 {
-			os.Remove(errPath)
-		}
-		return code
-	}
 	// Abnormal death: process-fatal fault inside the code under test (or the harness).
-	tail := tailOf(errPath, 200)
 	sig := id + "|any|process-fatal|" + fatalKind(tail)
 	r := rep.New(id, tier, seed, checks.Level[id])
 	r.SetRule("child process died abnormally; see witness")
@@ -149,7 +174,7 @@ func supervise(id, tier string, seed int64) int {
 	r.Distinct("crash-a")
 	r.Distinct("crash-b")
 	r.Sample(map[string]interface{}{"child_exit": code, "stderr": errPath})
-	r.Violation(sig, fmt.Sprintf("child process exited with code %d after %s: %s", code, time.Since(start).Round(time.Second), firstLine(tail)),
+	r.Violation(sig, fmt.Sprintf("child process exited with code %d after %s: %s", code, took.Round(time.Second), firstLine(tail)),
 		map[string]interface{}{"stderr_tail": tail, "stderr_file": errPath})
 	return r.Finish()
 }
